@@ -183,7 +183,60 @@ fn similar_query(rng: &mut Rng, lang: &str, family: &[String]) -> String {
 }
 
 impl Ranking {
+    /// A store that meets its longest word in the middle of a search, on a thread that has never matched anything: the
+    /// library's per-thread distance matrix grows while the records are being judged. The query starts with a cheap
+    /// letter (a vowel, where the language has classes); record 1 starts like the query, record 2 is a word of 23-80 letters
+    /// that starts like the query, records 3 and 4 match the query only with its first letter dropped - right at the
+    /// threshold. The store's list and every record's own verdict are taken on threads of their own.
+    fn growth_case(&self, cx: &mut Cx, lang: &'static str) {
+        let alpha: Vec<char> = gen::lower_alphabet(lang).into_iter().filter(|c| c.is_alphabetic()).collect();
+        let vowels: Vec<char> = if base_lang(lang) == "ru" { cv("аеиоу") } else { cv("aeiou") };
+        let cons: Vec<char> = alpha.iter().cloned().filter(|c| !vowels.contains(c)).collect();
+        if cons.len() < 4 {
+            return;
+        }
+        let v = *cx.rng.pick(&vowels);
+        let stem = gen::rand_word(&mut cx.rng, &cons, 3, 3);
+        let q = format!("{}{}", v, stem);
+        let word = |rng: &mut Rng, lo: usize, hi: usize| gen::rand_word(rng, &alpha, lo, hi);
+        let long_len = *cx.rng.pick(&[19usize, 20, 25, 30, 45, 76]);
+        let mut recs: Vec<Rec> = vec![
+            (1, format!("{}{} {}", q, word(&mut cx.rng, 2, 3), word(&mut cx.rng, 3, 6)), 60),
+            (2, format!("{}{} {}", q, word(&mut cx.rng, long_len, long_len + 4), word(&mut cx.rng, 3, 6)), 50),
+            (3, format!("{}{} {}", stem, word(&mut cx.rng, 1, 1), word(&mut cx.rng, 3, 6)), 40),
+            (4, format!("{}{} {}", stem, word(&mut cx.rng, 4, 6), word(&mut cx.rng, 3, 6)), 30),
+            (5, gen::rand_title(&mut cx.rng, lang, 3), 20),
+        ];
+        if cx.rng.chance(1, 3) {
+            recs.swap(0, 1);
+        }
+        let limit = recs.len() + 2;
+        cx.ctx(format!("C06 growth lang={} recs={:?} limit={} q={:?}", lang, recs, limit, q));
+        let (r2, q2) = (recs.clone(), q.clone());
+        let full = on_new_thread(move || St::build_sentinel(lang, &r2, limit).search(&q2));
+        cx.eval();
+        cx.count("stores that meet their longest word in the middle of a search on a fresh thread");
+        if full.len() >= 3 {
+            cx.count("such stores in which the records that need the query's first letter dropped are hits");
+            cx.key(hparts(&[lang, &format!("{:?}", recs), &q, "growth"]));
+        }
+        for r in &recs {
+            let (r1, q2) = (r.clone(), q.clone());
+            let alone = on_new_thread(move || St::build_sentinel(lang, &[r1], limit).search(&q2));
+            cx.eval();
+            let found: Hits = full.iter().filter(|h| h.0 == r.0).cloned().collect();
+            if found != alone {
+                cx.fail("hit-differs-from-solo-store", json!({"case": {"lang": lang, "records": recs, "limit": limit, "query": q}, "record": r, "in_the_full_store": found, "solo_store_result": alone,
+                    "note": "the store's list and the solo store's list were each computed on a thread of their own"}));
+                return;
+            }
+        }
+    }
+
     fn verdicts(&self, cx: &mut Cx, lang: &'static str) {
+        if (cx.idx / 12) % 10 == 7 && cx.tier != Tier::Miri {
+            return self.growth_case(cx, lang);
+        }
         let corpus = corpus_recs();
         let n = match cx.rng.below(4) {
             0 => cx.rng.range(1, 6),
